@@ -51,10 +51,12 @@ def case_strategy(depth):
 def _plain_optional(shape):
     """Optional[T] proper (a two-member Union with None): documented to become an option defaulting to None when it has no default, so
     it is not a required key.  Union[A, B, None] and Literal[..., None] without default stay required."""
-    import typing
-    tp = G.to_type(shape)
-    args = typing.get_args(tp)
-    return typing.get_origin(tp) is typing.Union and len(args) == 2 and type(None) in args
+    # decided on the shape, not on the built hint: the hint may be spelled T | None or wrapped in Annotated (DESIGN 3.1b)
+    if shape[0] != "opt":
+        return False
+    while shape[0] == "opt":  # Optional[Optional[T]] is Optional[T]
+        shape = shape[1]
+    return shape[0] != "union"  # Optional[Union[A, B]] is the three-member Union[A, B, None]
 
 
 def positions(shape, value, path):
